@@ -349,6 +349,29 @@ def runFresh (commit : Db → EvmState → Db) (pre0 : Pre) :
       | none => none
       | some (rs, db) => some (r :: rs, db)
 
+/-! ### The mainnet body of `validation.tx_against_state` over the journal model -/
+
+/-- `mainnet::validate_tx_against_state`: `journaled_state.load_code(caller, db)?` followed by
+`Env::validate_tx_against_state(&mut account)` (pure in the environment and the loaded account; it may
+raise the balance when the balance check is disabled). `dbErr` says whether the database read for
+the caller fails (then nothing has been inserted), `view` is the database as the journal model sees
+it. `none` of the journal model is a Rust panic (`panicErr`). -/
+def mainnetTxAgainstState (caller : Env → Addr) (view : Db → Revm.Model.Journal.Db)
+    (dbErr : Db → Addr → Option Err) (check : Env → Acct → Except Err Unit × Acct) (panicErr : Err) :
+    Stage Db Env Err L1 Unit :=
+  fun env w =>
+    match dbErr w.db (caller env) with
+    | some e => (.error e, w)
+    | none =>
+      match loadCode (view w.db) w.js (caller env) with
+      | none => (.error panicErr, w)
+      | some (js, _) =>
+        match js.state (caller env) with
+        | none => (.error panicErr, w)
+        | some acc =>
+          let r := check env acc
+          (r.1, { w with js := setAcct js (caller env) r.2 })
+
 /-! ### A scripted handler
 
 A concrete handler whose stages dirty the journal the way the real ones do (load accounts, touch, open
